@@ -614,7 +614,10 @@ func (t *diskTrack) writeBuffered(force bool) error {
 			return nil
 		}
 
-		if valid(t.origin) && int32(ts-value(t.origin)) < 0 {
+		// if no file is open, the origin is merely an estimate
+		// which initWriter will adjust.
+		if t.writer != nil &&
+			valid(t.origin) && int32(ts-value(t.origin)) < 0 {
 			// if we have gone around 2^31 timestamps, the
 			// timestamp is 2^31 before the origin; anything
 			// much closer is a late packet.
@@ -782,6 +785,8 @@ func (t *diskTrack) adjustOrigin(ts uint32) {
 			)
 		}
 	}
+	// avoid rounding errors
+	t.origin = some(ts)
 }
 
 // called locked
